@@ -105,6 +105,36 @@ CLAIMED = {
         design_ref="§7 C08"),
 }
 
+# Round 4 additions (appended to the texts above; see DESIGN.md R.7)
+TG_NOTE = (" Graph-level tie: harness/tgraph.py translates the exported ONNX graph into the term language of "
+           "lean/NdonnxVerif/Model/TGraph.lean (trusted translator); the Lean reading of the ONNX operators "
+           "(Slice, Gather, Unsqueeze, Squeeze, Transpose, Reshape, Expand, Concat, Shape, Range, Cast, Add, Mod, Equal, Where, Reduce*) "
+           "is an assumption validated on every run by evaluating the parsed exported graph in Lean against onnxruntime / NumPy on token data.")
+ROUND4 = {
+    "C06": dict(
+        text="Graph level (Props/C06Graph.lean, C08Graph.lean, C11Graph.lean): the terms ndonnx exports for x[index], roll, flip, expand_dims, squeeze, permute_dims, matrix_transpose, take, reshape, concat, stack depend on the call's arguments and the rank only (Model/TGraphFns.lean takes no extent); the check verifies on every run that with symbolic and unknown dimensions the library exports exactly these terms, and roll_correct_at_every_size / roll_null_field_correct_at_every_size / flip_correct_at_every_size / slices_correct_at_every_size prove that one and the same term evaluated at ANY concrete shape of that rank (extents 0 and 1 included) is NumPy's result at that shape.",
+        technique="Lean 4 proof: size-generic correctness of the exported graph terms (one term, every concrete shape) + per-axis slice theorem; graph-level tie by a translator + one-build-many-sizes correspondence",
+        note=TG_NOTE),
+    "C08": dict(
+        text="Round 4 (Props/C08Graph.lean, C08Tensor.lean, Lemmas/SlicesNd.lean): getitemGraph_eval — the term getitem is modelled to emit (one Slice over four constant vectors, scalar Gathers in reverse axis order, one Unsqueeze) evaluates to the operator-level model for every normalised index, shape and element value; getitem_slices_nd — for EVERY rank, an index of one slice per axis inside the standard's bounds is accepted and returns NumPy's elements in NumPy's shape and order (the N-d composition of slice_axis_agree, proved through per-axis (first, count, step) triples); exported_slices_graph_correct — hence the exported graph itself evaluated on any tensor is NumPy's x[s_0, ..., s_{r-1}]; getitem_rank1_slice / getitem_rank1_int / exported_int_graph_correct_rank1 for rank-1 tensors. The check compares the exported graph of every case (static, symbolic and unknown dims, all dtypes, both fields of nullable arrays) with the model's term.",
+        technique="Lean 4 proof: N-d slice theorem by composition of the per-axis clamp lemma, evaluation of the exported graph term to the model + graph-level tie by a translator + exhaustive one-axis correspondence",
+        note=TG_NOTE + " Mixed int/slice/None indices of rank >= 2 are proved at the graph-to-model level (getitemGraph_eval) and tied to NumPy by correspondence, not by a theorem."),
+    "C10": dict(
+        text="Graph level (Props/C10Graph.lean): reduceCore_shape — every exported ReduceSum/Prod/Min/Max node as sum/prod/min/max/all/any emit it has NumPy's keepdims shape for every rank, shape (extents 0 included) and valid axis argument; any_graph_correct / all_graph_correct — the exported graph of any/all (x != 0 -> int8 -> int64 -> ReduceMax/Min -> int8 -> bool) returns at every result position whether some / every element of the reduced slice is truthy, including slices with no element (False / True through the int8 round trip of INT64_MIN / INT64_MAX; any_without_int8_is_wrong is the proved witness that the round trip is necessary). The check compares the graph exported for every sampled (function, integer or boolean dtype, axis form, keepdims, dtype=) with the model's term.",
+        technique="Lean 4 proof: reduced-shape theorem, neutral-element and truth-value theorems of the exported all/any graphs for all ranks/axes + graph-level tie by a translator + NumPy correspondence sweep",
+        note=TG_NOTE + " onnxruntime returns the type extremes for ReduceMin/ReduceMax over an empty slice: modelled as such and validated by the same comparison."),
+    "C11": dict(
+        text="Graph level (Props/C11Graph.lean): roll_graph_correct — the graph roll(x, shifts, axes) exports (per step Shape -> Gather -> Range -> Cast -> Add -> Mod(fmod=0) with divisor where(len == 0, 1, len) -> Gather, then Reshape to the input's shape), for a plain array, the values field and the null field of a nullable array (index vectors read from the values field's shape), evaluates for every shape, shift of any sign and magnitude and list of valid (negative, repeated) axes to NumPy's successive rotations; flip_graph_correct (one Slice with INT64_MAX / INT64_MIN / -1, as a corollary of the N-d slice theorem); expandDims_graph_correct, squeeze_graph_correct, concat_graph_correct, permute / matrix_transpose. The check compares the exported graph of 14 layout call forms with the model's terms.",
+        technique="Lean 4 proof: exported-graph terms of roll/flip/expand_dims/squeeze/concat evaluated to NumPy's index maps for all shapes + graph-level tie by a translator + token-data correspondence",
+        note=TG_NOTE),
+    "C12": dict(
+        text="Algorithm level (Model/Search.lean, Props/C12Search.lean): searchsortedImpl_eq_count / searchsorted_correct — the algorithm ndonnx runs (ranks among the distinct values of x1 ++ x2, multiplicities scattered into slot rank+1, cumulative sum, slot lookup) returns the counting specification #{x < v} (left) / #{x <= v} (right) for every haystack and needle, no size bound; tied by the driver command searchsorted against NumPy and the implementation.",
+        technique="Lean 4 proof: order-embedding and counting lemmas, correctness of the rank/cumulative-sum searchsorted algorithm for all inputs + invariant/NumPy correspondence"),
+    "C15": dict(
+        text="Props/C15Static.lean (Model/StaticShape.lean): static_getitem_sound — whatever the declared dims of the operand (static, symbolic, unknown, mixed) and whatever run-time shape they admit, the dims reported for x[index] (the hand-written annotation after Slice, then inference through the scalar Gathers and the Unsqueeze) admit the run-time shape of the result: same rank, every reported integer extent is the run-time extent; sliced_extent_must_be_erased is the proved witness that keeping the declared extent of a sliced axis would be unsound. Tied by a systematic sweep (slices outside the standard's bounds included) of reported shape and declared output dims vs the model and vs run time.",
+        technique="Lean 4 proof: rank theorems + soundness of the reported static dims of x[index] for all declared dims and admitted shapes + static-metadata vs run-time correspondence"),
+}
+
 NOT_YET = {}
 
 ALL = [f"C{i:02d}" for i in range(1, 21)]
@@ -115,7 +145,11 @@ def main():
     for pid in ALL:
         if pid not in CLAIMED:
             continue
-        c = CLAIMED[pid]
+        c = dict(CLAIMED[pid])
+        if pid in ROUND4:
+            c["text"] = c["text"] + " " + ROUND4[pid]["text"]
+            c["technique"] = ROUND4[pid].get("technique", c["technique"])
+            c["note"] = c["note"] + ROUND4[pid].get("note", "")
         checks.append({
             "property_id": pid,
             "quick_cmd": f"./check {pid} --tier quick",
